@@ -13,6 +13,7 @@ import (
 	"time"
 
 	"github.com/bluenviron/gomavlib/v3"
+	"github.com/bluenviron/gomavlib/v3/pkg/dialects/common"
 	"github.com/bluenviron/gomavlib/v3/pkg/frame"
 	"github.com/bluenviron/gomavlib/v3/pkg/message"
 )
@@ -432,6 +433,7 @@ func (p *player) run() {
 		p.nodeA.Store(p.node)
 		err = p.node.Initialize()
 	}
+	p.initAt = time.Now()
 	p.rec.Put(M{"e": "Init", "ok": err == nil, "err": fmt.Sprint(err), "t": p.ms()})
 	if err != nil {
 		// a failed initialization must leave nothing behind
@@ -473,6 +475,9 @@ func (p *player) run() {
 		evClosed = true
 	case <-time.After(5 * time.Second):
 		p.rec.Put(M{"e": "Timeout", "what": "events_closed", "t": p.ms()})
+	}
+	if c.SecondLife && !c.LegacyCtor && evClosed {
+		p.secondLife()
 	}
 	p.final(baseline, evClosed)
 }
@@ -573,8 +578,58 @@ func (p *player) step(s ScStep) {
 				}
 			}(ctl, chunks)
 		}
+		if s.AtMs > 0 {
+			// everything is built and recorded: the transports get it at a chosen instant of the node's life
+			// (a long sleep can be tens of milliseconds late on a busy machine: the last stretch is walked in short steps)
+			at := p.initAt.Add(time.Duration(s.AtMs) * time.Millisecond)
+			if d := time.Until(at) - 150*time.Millisecond; d > 0 {
+				time.Sleep(d)
+			}
+			for time.Now().Before(at) {
+				time.Sleep(500 * time.Microsecond)
+			}
+			p.rec.Put(M{"e": "Note", "what": fmt.Sprintf("burst released %d ms after Initialize returned", time.Since(p.initAt)/time.Millisecond)})
+		}
 		close(start)
 		wg.Wait()
+	case "flood":
+		// the application keeps writing large messages to every channel for s.Ms milliseconds, as fast as it can, from
+		// writer goroutine g: far more than a peer that does not read can take. Not recorded call by call (nothing of it
+		// is ever looked for on a wire): one record when it starts, one when it is over.
+		ops := p.writers[s.G]
+		if ops == nil {
+			ops = make(chan func(), 4096)
+			p.writers[s.G] = ops
+			p.wwg.Add(1)
+			go p.writerLoop(s.G, ops)
+		}
+		dur := time.Duration(s.Ms) * time.Millisecond
+		ops <- func() {
+			p.rec.Put(M{"e": "Flood", "g": s.G, "ms": s.Ms, "t": p.ms()})
+			m := &common.MessageEncapsulatedData{Seqnr: 1}
+			for i := range m.Data {
+				m.Data[i] = 0xAA
+			}
+			n := 0
+			pan := false
+			func() {
+				defer func() {
+					if recover() != nil {
+						pan = true
+					}
+				}()
+				for dl := time.Now().Add(dur); time.Now().Before(dl); n++ {
+					p.node.WriteMessageAll(m) //nolint:errcheck
+					if n%64 == 63 {
+						time.Sleep(50 * time.Microsecond) // lets the channel's writer take what was queued
+					}
+				}
+			}()
+			if pan {
+				p.rec.Put(M{"e": "Panic", "where": "flood", "t": p.ms()})
+			}
+			p.rec.Put(M{"e": "FloodEnd", "g": s.G, "n": n, "t": p.ms()})
+		}
 	case "read_err":
 		want := "injected"
 		var rerr error = errInjected
@@ -620,6 +675,10 @@ func (p *player) step(s ScStep) {
 				ctl.failErr = io.ErrClosedPipe
 			case "net_timeout":
 				ctl.failErr = &net.OpError{Op: "write", Net: "tcp", Err: os.ErrDeadlineExceeded}
+			case "net_error": // an error of the network stack that is not a timeout and not final
+				ctl.failErr = &net.OpError{Op: "write", Net: "udp", Err: os.NewSyscallError("sendto", syscall.ENOBUFS)}
+			case "conn_refused": // what a connected UDP socket reports once after an ICMP "port unreachable"
+				ctl.failErr = &net.OpError{Op: "write", Net: "udp", Err: os.NewSyscallError("write", syscall.ECONNREFUSED)}
 			default:
 				ctl.failErr = nil
 			}
@@ -703,7 +762,11 @@ func (p *player) step(s ScStep) {
 		p.peers[[2]int{s.Ep, s.Peer}] = conn
 		p.mu.Unlock()
 		p.rec.Put(M{"e": "PeerConnect", "ep": s.Ep, "peer": s.Peer, "t": p.ms()})
-		go p.peerReader(s.Ep, s.Peer, conn)
+		if s.NoRead {
+			go p.peerSilent(s.Ep, s.Peer, conn)
+		} else {
+			go p.peerReader(s.Ep, s.Peer, conn)
+		}
 	case "listener_mode":
 		p.mu.Lock()
 		p.lmode[s.Ep] = s.Mode
@@ -918,6 +981,42 @@ func leakedStacks() []string {
 		}
 	}
 	return out
+}
+
+// secondLife: the Node value that has just been closed is initialized once more (fresh transports, same addresses:
+// the ports of the first life must be free again) and closed again. If the second Initialize is refused nothing is
+// claimed; if it succeeds this is a running node like any other: Close must return and end the event channel, and
+// what final() measures afterwards (goroutines, ports, sockets) covers both lives.
+func (p *player) secondLife() {
+	p.node.Endpoints = p.buildNode().Endpoints
+	err := p.node.Initialize()
+	p.rec.Put(M{"e": "SecondInit", "ok": err == nil, "err": fmt.Sprint(err), "t": p.ms()})
+	if err != nil {
+		return
+	}
+	evDone := make(chan struct{})
+	go func() {
+		for range p.node.Events() {
+		}
+		close(evDone)
+	}()
+	time.Sleep(30 * time.Millisecond)
+	done := make(chan struct{})
+	go func() {
+		p.node.Close()
+		close(done)
+	}()
+	select {
+	case <-done:
+		p.rec.Put(M{"e": "SecondCloseRet", "t": p.ms()})
+	case <-time.After(5 * time.Second):
+		p.rec.Put(M{"e": "Timeout", "what": "close_return", "life": 2, "t": p.ms()})
+	}
+	select {
+	case <-evDone:
+	case <-time.After(2 * time.Second):
+		p.rec.Put(M{"e": "Timeout", "what": "events_closed", "life": 2, "t": p.ms()})
+	}
 }
 
 func (p *player) final(baseline int, evClosed bool) {
